@@ -514,10 +514,12 @@ def _constructor_and_precision_clauses(ctx: Ctx):
     if sha is None:
         raise AnalysisError("C20: MultiHeadedAttention.__init__ has no wrapped-attention formal")
     refusals = []
+    from sa.inline import Inliner as _InlI
+    inl_i = _InlI(init.node)
     for n in own_nodes(init.node):
         if not isinstance(n, ast.Raise):
             continue
-        gs = guards_of(pm, n)
+        gs = [(inl_i.expand(t_), p_) for t_, p_ in guards_of(pm, n)]  # (`dim = attention.dim; if dim < 0` is the same guard)
         if not any(f"{sha}.dim" in u(t_) for t_, _ in gs):
             continue
         try:
